@@ -20,23 +20,53 @@ LEVEL_TEXT = ('Lean theorems for every number of input files I>=1, nodes N, core
               '>= 1 trial once T covers the tasks of one input, result/progress file names are pairwise distinct '
               '(zero-padded decimal task number is injective), run_parallel raises nothing, and the only '
               'arithmetic error (division by zero) occurs exactly when N*C < I. The model is a line-by-line '
-              'transcription of run_parallel tied to cli.py by differential runs over every job index.')
+              'transcription of run_parallel tied to cli.py by differential runs over every job index. '
+              'End of the pipeline: the task body run_file is modelled as the composition of the input-file '
+              'expansion (C13 model), the batch save/resume protocol (C12 model, save frequency 1) and the trial '
+              'bookkeeping (C11 model); theorems: from a results file that is absent or holds k trials for every '
+              'expanded simulation, run_file(n) ends without error within an explicit step bound and the file '
+              'then holds, for every expanded simulation, exactly max(k, n) trials with equally long lists and '
+              'records of no other simulation (run_file_completes_requested_trials); composed with the plan, '
+              'the trials recorded for every simulation of every input in the result files of its tasks sum to '
+              'exactly T (plan_then_run_conserves_trials). Tied to the code by really executing run_file '
+              '(tiny codes, MatchingDecoder / BP-OSD, .json and .json.gz, fresh and pre-existing results files, '
+              'progress=tqdm and log_file as run_parallel passes them) and the chain run_parallel -> run_file '
+              'per task -> merge-results -> Analysis.')
 LEVEL_NOTE = ('trusted: Lean kernel + standard axioms; correspondence harness; run_parallel is observed at the '
               'arguments of the multiprocessing.Process objects it creates (Process, cpu_count and glob are '
-              'replaced by recording stubs, nothing is started); run_file itself (what a task does with its '
-              'n_runs) is outside this property (C11/C12)')
-TECHNIQUE = ('Lean 4 proof (induction on the task index, interval characterisation of each input, omega) + '
-             'differential correspondence with the compiled model driver over a full box of (I,N,C,T,job) and '
-             'random larger configurations')
+              'replaced by recording stubs in the plan streams; in the plan-run-merge stream Process is an '
+              'in-process executor whose start() runs the task body at once, so concurrency between tasks is not '
+              'exercised - tasks write pairwise distinct files, proved). The run_file theorems cover method '
+              'direct, pairwise different expanded simulations and a uniform pre-existing file (the state an '
+              'earlier run_file call leaves); a results file with records of other simulations, repeated '
+              'simulations, or a changed specification are compared with the model by differential runs only '
+              '(records of simulations no longer requested are dropped by the next save - modelled, observed). '
+              'Trial outcomes inside the records are C11\'s business; here only identity, counts, list lengths '
+              'and the record relations are compared. Crash / interrupt schedules of the task are C12.')
+TECHNIQUE = ('Lean 4 proof (induction on the task index, interval characterisation of each input, omega; for '
+             'run_file: the C12 invariant + a linearised termination measure giving an explicit fuel bound) + '
+             'differential correspondence with the compiled model driver over a full box of (I,N,C,T,job), '
+             'random larger configurations, real run_file calls chained on one results file, and the executed '
+             'plan -> run -> merge -> Analysis pipeline')
 TRUSTED = ['multiprocessing.Process(target, args, kwargs) runs run_file(*args, **kwargs) once when started '
-           '(stubbed); glob order is whatever the OS returns (the stub returns a fixed unsorted list); Python '
-           'integer // and % on non-negative ints = Nat div/mod; str.zfill on digit strings']
+           '(stubbed / executed in-process); glob order is whatever the OS returns (the stub returns a fixed '
+           'unsorted list); Python integer // and % on non-negative ints = Nat div/mod; str.zfill on digit strings',
+           'identity of recorded inputs: Python == on the JSON-like inputs dictionaries = the model\'s sameInputs '
+           '(numbers by value, dictionaries by key), compared on every differential run through the identity '
+           'numbers of the expanded simulations']
 ASSUMPTIONS = ['non-negative integer options (negative --trials/--n_cores are not modelled)',
                'all N invocations see the same list of input files in the same order (the code does not sort '
-               'the glob result)']
-ANCHOR_FILES = ['panqec/cli.py']
+               'the glob result)',
+               'run_file theorems: method direct; the simulations of one input file have pairwise different '
+               'recorded inputs; nobody else writes the results file while the task runs']
+ANCHOR_FILES = ['panqec/cli.py', 'panqec/simulation/_batch_simulation.py', 'panqec/simulation/_base_simulation.py',
+                'panqec/simulation/_direct_simulation.py', 'panqec/utils.py']
 RULE = ('one model-driver op per (n_inputs, n_nodes, n_cores option, cpu_count, trials, job_idx); implementation '
-        'answer = the (input index, n_runs, result file, log file) of every Process created, as canonical text')
+        'answer = the (input index, n_runs, result file, log file) of every Process created, as canonical text; '
+        'one op per real run_file call (answer = batch label/method, identity numbers, progress log text, range '
+        'given to progress, number of run_once calls, temp file, results document record by record); one op per '
+        'executed pipeline and group of inputs (answer = trials per (input, simulation) reported by Analysis on '
+        'the merged file)')
 
 
 # ------------------------------------------------------------------ running the implementation
@@ -270,6 +300,8 @@ def check_config(case):
     """The statement of C14 on the implementation for one (I, N, C, T): run every node 1..N
     (case['procs']: every node in its own interpreter with its own PYTHONHASHSEED)."""
     global _ENV
+    if case.get('kind') == 'pipeline':
+        return check_pipeline(case)
     own = _ENV is None
     env = Env() if own else _ENV
     try:
@@ -319,6 +351,30 @@ def check_config(case):
             env.close()
 
 
+def check_pipeline(case):
+    """The statement of C14 at the END of the pipeline, on the implementation only: every node's run_parallel is
+    executed with the tasks run in-process (real run_file on tiny codes), the result files are merged with
+    merge-results and read by Analysis; every simulation of every input must show exactly T trials."""
+    from harness.props import c14_runfile
+    I, N, C, T = case['I'], case['N'], case['C'], case['T']
+    if N * C < I:
+        return None
+    try:
+        r, planned, err = c14_runfile.run_pipeline(I, N, C, T)
+    except Exception as e:  # noqa: BLE001
+        return f'pipeline raised {type(e).__name__}: {str(e)[:120]}'
+    if err:
+        return err
+    merged, analysis, _ = r
+    for key in sorted(merged):
+        if merged[key] != T:
+            return (f'input #{key[0]}, simulation #{key[1]}: the result files hold {merged[key]} trials in total, '
+                    f'requested {T}')
+        if analysis[key] != T:
+            return f'input #{key[0]}, simulation #{key[1]}: Analysis reports {analysis[key]} trials, requested {T}'
+    return None
+
+
 def oracle_cases(ctx, deep):
     rng = ctx.np_rng(41)
     cases = [{'I': 1, 'N': 1, 'C': 4, 'T': 10}]        # D2 regression input
@@ -338,6 +394,10 @@ def oracle_cases(ctx, deep):
         T = int(rng.choice([q + r, q + r + 1, int(rng.integers(q + r, 5000 + q + r)),
                             (q + r) * int(rng.integers(1, 40)) + int(rng.integers(0, q + r))]))
         cases.append({'I': I, 'N': N, 'C': C, 'T': T})
+    # the end of the pipeline: tasks really executed, merged, read by Analysis
+    for (I, N, C, T) in ([(1, 1, 4, 10), (3, 2, 2, 7), (2, 2, 2, 5)] +
+                         ([(4, 2, 2, 9), (1, 2, 2, 3), (5, 3, 2, 8), (2, 1, 3, 11)] if deep else [])):
+        cases.append({'kind': 'pipeline', 'I': I, 'N': N, 'C': C, 'T': T})
     if deep:
         # every node in its own interpreter with its own string-hash seed (as on a cluster)
         for (I, N, C, T) in [(2, 2, 1, 5), (3, 2, 2, 7), (4, 3, 2, 12), (6, 4, 3, 100), (5, 2, 4, 9)]:
@@ -350,7 +410,7 @@ def oracle(ctx, deep=False, broken=None):
     cases = oracle_cases(ctx, deep)
     _ENV = Env()
     try:
-        fails = first_failures(cases, check_config, key=lambda c: {'kind': 'run_parallel'})
+        fails = first_failures(cases, check_config, key=lambda c: {'kind': c.get('kind', 'run_parallel')})
     finally:
         _ENV.close()
         _ENV = None
